@@ -27,7 +27,10 @@ class RequestResponseRequester(StreamHandler, Requester):
         return self._future
 
     def frame_received(self, frame: Frame):
-        if isinstance(frame, PayloadFrame):
+        if self._future.done():
+            # cancelled by the application before its done callback ran: the stream is over, nothing to resolve
+            self._finish_stream()
+        elif isinstance(frame, PayloadFrame):
             self._future.set_result(payload_from_frame(frame))
             self._finish_stream()
         elif isinstance(frame, ErrorFrame):
